@@ -474,6 +474,7 @@ class Ctx:
     def shrink_case(self, st, case, budget=400):
         if not st.shrink:
             return case
+        budget = getattr(st, "shrink_budget", budget)
         cur = case
         improved = True
         while improved and budget > 0:
